@@ -1,8 +1,47 @@
+import FcpptModel.Drv.C01
+import FcpptModel.Drv.C02
+import FcpptModel.Drv.C03
+import FcpptModel.Drv.C04
+import FcpptModel.Drv.C05
+import FcpptModel.Drv.C06
+import FcpptModel.Drv.C07
+import FcpptModel.Drv.C08
+import FcpptModel.Drv.C09
 import FcpptModel.Drv.C10
+import FcpptModel.Drv.C11
+import FcpptModel.Drv.C12
+import FcpptModel.Drv.C13
+import FcpptModel.Drv.C14
+import FcpptModel.Drv.C15
+import FcpptModel.Drv.C16
+import FcpptModel.Drv.C17
+import FcpptModel.Drv.C18
+import FcpptModel.Drv.C19
+import FcpptModel.Drv.C20
 /-!
 `driver <property id>`: reads operation lines on stdin, prints one result line per operation.
+Every property has its own module `FcpptModel/Drv/<id>.lean` exporting `main : IO Unit`.
 -/
 def main (args : List String) : IO UInt32 := do
   match args with
+  | ["C01"] => Fcppt.C01.Drv.main; return 0
+  | ["C02"] => Fcppt.C02.Drv.main; return 0
+  | ["C03"] => Fcppt.C03.Drv.main; return 0
+  | ["C04"] => Fcppt.C04.Drv.main; return 0
+  | ["C05"] => Fcppt.C05.Drv.main; return 0
+  | ["C06"] => Fcppt.C06.Drv.main; return 0
+  | ["C07"] => Fcppt.C07.Drv.main; return 0
+  | ["C08"] => Fcppt.C08.Drv.main; return 0
+  | ["C09"] => Fcppt.C09.Drv.main; return 0
   | ["C10"] => Fcppt.C10.Drv.main; return 0
+  | ["C11"] => Fcppt.C11.Drv.main; return 0
+  | ["C12"] => Fcppt.C12.Drv.main; return 0
+  | ["C13"] => Fcppt.C13.Drv.main; return 0
+  | ["C14"] => Fcppt.C14.Drv.main; return 0
+  | ["C15"] => Fcppt.C15.Drv.main; return 0
+  | ["C16"] => Fcppt.C16.Drv.main; return 0
+  | ["C17"] => Fcppt.C17.Drv.main; return 0
+  | ["C18"] => Fcppt.C18.Drv.main; return 0
+  | ["C19"] => Fcppt.C19.Drv.main; return 0
+  | ["C20"] => Fcppt.C20.Drv.main; return 0
   | _ => IO.eprintln "usage: driver <property id>"; return 2
